@@ -93,19 +93,40 @@ func (fr *frame) idealTrunc(x *smt.Term) *smt.Term {
 		}
 		return c.Real(new(big.Rat).SetInt(f))
 	}
-	// k is an INTEGER (mixed Int/Real query): comparisons such as TruncateInt().IsZero() keep their meaning
-	ki := c.Var(fr.i.eng.FreshName("k"), smt.SInt)
-	k := c.ToReal(ki)
+	// k is a real with k <= x < k+1 (integrality is dropped to stay in QF_NRA); the one thing
+	// callers test about a truncated value besides its magnitude - whether it is zero - is
+	// pinned: 0 <= x < 1 gives k = 0, x >= 1 gives k >= 1.
+	if k, ok := fr.i.eng.truncOf[x]; ok {
+		return k
+	}
+	k := c.Var(fr.i.eng.FreshName("k"), smt.SReal)
+	fr.i.eng.truncOf[x] = k
 	one := c.Real(big.NewRat(1, 1))
 	zero := c.Real(new(big.Rat))
-	pos := c.And(c.Le(k, x), c.Lt(x, c.Add(k, one)))
-	neg := c.And(c.Lt(c.Sub(k, one), x), c.Le(x, k))
+	pos := c.And(c.Le(k, x), c.Lt(x, c.Add(k, one)), c.Implies(c.Lt(x, one), c.Eq(k, zero)), c.Implies(c.Ge(x, one), c.Ge(k, one)))
+	neg := c.And(c.Lt(c.Sub(k, one), x), c.Le(x, k), c.Implies(c.Gt(x, c.Neg(one)), c.Eq(k, zero)))
 	if x.Lo != nil && x.Lo.Sign() >= 0 {
 		fr.i.eng.addPC(pos)
-		ki.Lo = new(big.Rat)
+		k.Lo = new(big.Rat)
 	} else {
 		fr.i.eng.addPC(c.Ite(c.Ge(x, zero), pos, neg))
 	}
+	// integrality relative to the other integer-valued quantities of the path (symbolic token
+	// amounts, earlier truncation results): for integer z, x >= z implies trunc(x) >= z and
+	// x < z implies trunc(x) <= z - 1 (for x >= 0). Keeps floor monotone without the Int sort.
+	eng := fr.i.eng
+	lo := len(eng.intTerms) - 12
+	if lo < 0 {
+		lo = 0
+	}
+	var lem []*smt.Term
+	for _, z := range eng.intTerms[lo:] {
+		lem = append(lem, c.Implies(c.And(c.Ge(x, zero), c.Ge(x, z)), c.Ge(k, z)), c.Implies(c.And(c.Ge(x, zero), c.Lt(x, z)), c.Le(k, c.Sub(z, one))))
+	}
+	if len(lem) > 0 {
+		eng.addPC(c.And(lem...))
+	}
+	eng.intTerms = append(eng.intTerms, k)
 	return k
 }
 
